@@ -323,6 +323,58 @@ func C03(c *hx.Ctx) {
 			selfPlain.Write(enc.Pt)
 		}
 	}
+	// container corner layouts: empty blocks (an end chunk only) with and without the optional
+	// size fields (Uncompressed Size 0 is legal, Compressed Size is 1), first / middle / last,
+	// for every check type; and blocks whose chunks sit exactly on the LZMA2 size limits
+	{
+		small := func(seed int) ref.BlockSpec {
+			e := ref.NewL2Enc(4096)
+			ops := []ref.Op{}
+			for i := 0; i < 9; i++ {
+				ops = append(ops, ref.Op{K: ref.OpLit, B: byte('a' + (seed+i)%7)})
+			}
+			e.Add(ref.ChunkSpec{Kind: "LRND", Props: ref.Props{LC: 3, LP: 0, PB: 2}, Ops: append(ops, ref.Op{K: ref.OpMatch, Dist: 4, Len: 11})})
+			e.Add(ref.ChunkSpec{Kind: "EOS"})
+			return ref.BlockSpec{L2: e.Out, Content: e.Pt, WithC: seed%2 == 0, WithU: seed%3 == 0, DictCode: 0}
+		}
+		for _, check := range []int{0, 1, 4, 10} {
+			for mask := 0; mask < 4; mask++ {
+				empty := ref.BlockSpec{L2: []byte{0}, Content: nil, WithC: mask&1 != 0, WithU: mask&2 != 0, DictCode: mask}
+				for li, layout := range [][]ref.BlockSpec{{empty}, {empty, small(1)}, {small(2), empty, small(3)}, {small(4), empty}, {empty, empty}} {
+					var plain []byte
+					for _, b := range layout {
+						plain = append(plain, b.Content...)
+					}
+					file := ref.Serialize([]ref.LStream{ref.BuildStream(check, layout)})
+					if xr := ref.DecodeXZ(file, ref.XZOpts{}); xr.Err != nil || !bytes.Equal(xr.Content, plain) {
+						c.Inconclusive("trusted base: ref rejects its own empty-block layout: %v", xr.Err)
+						continue
+					}
+					streams = append(streams, stream{fmt.Sprintf("gen/empty-block check=%d sizes=%d layout=%d", check, mask, li), file, plain, []int{4096, 65536}, true})
+					if len(selfFiles) < 400 {
+						selfFiles = append(selfFiles, file)
+						selfPlain.Write(plain)
+					}
+				}
+			}
+		}
+		lim, lerr := sizeLimitStreams(c.Seed)
+		if lerr != nil {
+			c.Inconclusive("size-limit streams: %v", lerr)
+		}
+		for i, b := range lim {
+			file := ref.Serialize([]ref.LStream{ref.BuildStream([]int{4, 1, 0, 10}[i%4], []ref.BlockSpec{{L2: b.Data, Content: b.Plain, WithC: i%2 == 0, WithU: i%2 == 1, DictCode: leastDictCode(1 << 22)}})})
+			if xr := ref.DecodeXZ(file, ref.XZOpts{}); xr.Err != nil || !bytes.Equal(xr.Content, b.Plain) {
+				c.Inconclusive("trusted base: ref rejects its own size-limit container: %v", xr.Err)
+				continue
+			}
+			streams = append(streams, stream{"gen/" + b.Name, file, b.Plain, []int{4096, 1 << 22}, true})
+			if len(selfFiles) < 400 {
+				selfFiles = append(selfFiles, file)
+				selfPlain.Write(b.Plain)
+			}
+		}
+	}
 	// the generated streams must also be valid for xz-utils (trusted-base check)
 	if len(selfFiles) > 0 {
 		dir, _ := os.MkdirTemp(c.Scratch, "self")
